@@ -10,8 +10,8 @@ used = {}
 for d in sorted(glob.glob('/verif/seeded/*/meta.json')):
     m = json.load(open(d))
     used.setdefault(m['property'], []).append(f"{m['name'].replace('-', ' ')} ({m['needs_to_manifest'][:110]})")
-GROUPS = [("A", "C01", "C09"), ("B", "C02", "C10"), ("C", "C03", "C15"), ("D", "C04", "C08"), ("E", "C05", "C07"),
-          ("F", "C06", "C18"), ("G", "C11", "C19"), ("H", "C12", "C14"), ("I", "C13", "C17"), ("J", "C16", "C20")]
+GROUPS = [("A", "C01", "C13"), ("B", "C02", "C19"), ("C", "C03", "C18"), ("D", "C04", "C16"), ("E", "C05", "C20"),
+          ("F", "C06", "C10"), ("G", "C07", "C17"), ("H", "C08", "C14"), ("I", "C09", "C12"), ("J", "C11", "C15")]
 ROUND_NOTE = sys.argv[3] if len(sys.argv) > 3 else ""
 HEAD = open('/verif/tools/SEED_PROMPT_HEAD.txt').read()
 for g, a, b in GROUPS:
